@@ -260,7 +260,8 @@ def check_prior(case, stats):
   tag = '%s/%s' % (name, opt)
   if bad:
     if not isinstance(r, ValueError):
-      if opt == 'array-singular' and not isinstance(r, RuntimeError):
+      if opt == 'array-singular':
+        # (SDML may go on to fail inside the graphical lasso with a RuntimeError: the prior was accepted all the same)
         # discriminating predicate of known finding KF2: the symmetric eigen-solver returned the exactly zero
         # eigenvalue as noise above the documented tolerance d * eps * lambda_max
         from scipy.linalg import eigh
